@@ -129,6 +129,22 @@ Theorem C09_scan_members_only : forall txs x y, weq x y ->
 Proof. exact scan_weq. Qed.
 Print Assumptions C09_scan_members_only.
 
+(* WHAT IS RELEVANT IS IN THE DELIVERED SET, for any watch list.  The
+   completeness monitor compares every connected callback with [scan] of the
+   block under the specification's watch state (C09_complete_unless); [scan]
+   contains every transaction of the block that pays a watched script or
+   spends a watched outpoint - watched when the block is looked at, or
+   created by an earlier transaction of the same block.  Relevance is by
+   SCRIPT (as the code's filter matching and paysWatchedAddr are) and by
+   outpoint: a watch list holding several addresses of one key (P2PK of the
+   compressed / uncompressed key, P2PKH, P2WPKH, P2SH-P2WPKH - addresses
+   whose EncodeAddress() strings may coincide) is a list of several scripts,
+   each watched; repeated entries change nothing (C09_scan_members_only). *)
+Theorem C09_relevant_tx_delivered : forall txs x t,
+  In t txs -> pays_or_spends x t -> In (txid t) (fst (scan x txs)).
+Proof. exact scan_delivers. Qed.
+Print Assumptions C09_relevant_tx_delivered.
+
 (* the two facts about matching the invariant rests on: what
    extractBlockMatches delivers for a fetched block, and the watch state it
    leaves, are the relevant transactions and the grown watch state of the
@@ -327,3 +343,27 @@ Example C09_wait_for_start_height :
   callbacks (combine startwait_evs (snd r)) =
     [CbDisc 3 2 2; CbConn 4 2 2 [301]; CbConn 5 4 3 []]%N.
 Proof. vm_compute. repeat split; reflexivity. Qed.
+
+(* Several addresses of one key.  Scripts 6 (P2PKH of key K) and 7 (P2PK of
+   K) are both given at Start, 7 listed second and 6 twice; block 2 pays 6,
+   block 3 pays 7, block 4 spends the output paying 7: all three
+   transactions are delivered with their blocks.  (The correspondence run
+   feeds the real rescan address objects of these forms, whose
+   EncodeAddress() strings coincide, in both orders, in one WatchAddrs /
+   AddAddrs call and across calls.) *)
+Definition k6 : tx := {| txid := 401; tins := [((900, 0), 2)]; touts := [6] |}%N.
+Definition k7 : tx := {| txid := 402; tins := [((901, 0), 2)]; touts := [7] |}%N.
+Definition k7s : tx := {| txid := 403; tins := [((402, 0), 7)]; touts := [1] |}%N.
+Definition keyforms_evs : list ev :=
+  [EvExtend 2 100 [k6]; EvExtend 3 200 [k7]; EvExtend 4 300 [k7s];
+   EvStart {| cstart := 0; cstartT := 0; cend := 0; caddrs := [6; 7; 6]%N; cinputs := [] |};
+   TCall ROk; TCall ROk;
+   TCall ROk; TCall ROk; TCall ROk; TCall ROk;
+   TCall ROk; TCall ROk; TCall ROk; TCall ROk;
+   TCall ROk; TCall ROk; TCall ROk; TCall ROk]%N.
+Example C09_two_forms_of_one_key :
+  let r := run matches (init 1 0) keyforms_evs in
+  holds 1 0 (combine keyforms_evs (snd r)) = true /\
+  callbacks (combine keyforms_evs (snd r)) =
+    [CbConn 2 1 1 [401]; CbConn 3 2 2 [402]; CbConn 4 3 3 [403]]%N.
+Proof. vm_compute. split; reflexivity. Qed.
